@@ -36,7 +36,7 @@ def coverage(ctx, F, vb, rule, key, fn, adt, traced_params=(), what="trace"):
 
 def r1_trace(ctx, F, vb):
     impls = [i for i in F.impls if re.search(TRACE, i["trait"]) and i["crate"] in ("starlark", "starlark_map")]
-    ctx.floor("C03.R1", "Trace impls", len(impls), 95)
+    ctx.floor("C03.R1", "Trace impls", len(impls), 95, inventory=True)
     n_adts = 0
     n_fields = 0
     for i in impls:
@@ -55,7 +55,7 @@ def r1_trace(ctx, F, vb):
         n_fields += n
         if n == 0:
             ctx.ok("C03.R1", adt.path + ":(no value-bearing field)")
-    ctx.floor("C03.R1", "local ADTs with a Trace impl", n_adts, 54)
+    ctx.floor("C03.R1", "local ADTs with a Trace impl", n_adts, 54, inventory=True)
     ctx.info["trace_required_fields"] = n_fields
     # #[trace(unsafe_ignore)] leaves an empty trace for a value-bearing field: covered by the rule above.
 
@@ -96,7 +96,7 @@ def r1b_dead_temporaries(ctx, F):
                       "value is discarded and the original storage keeps pointing into the old arena"
                       % (base, ty[:60]), fn=f, line=c.line)
     ctx.info["trace_calls_on_stack_copies"] = n
-    ctx.floor("C03.R1b", "trace calls on stack copies", n, 1)
+    ctx.floor("C03.R1b", "trace calls on stack copies", n, 1, inventory=True)
 
 
 def r2_roots(ctx, F, vb):
@@ -181,7 +181,7 @@ def r3_points(ctx, F):
     # allow_gc argument at every call site of the statement compilers
     fam = r"<impl eval::compiler::Compiler<[^>]*>>::(stmt|stmt_direct|stmt_if|stmt_if_else)$"
     sites = callers(F, fam)
-    ctx.floor("C03.R3", "statement-compiler call sites", len(sites), 11)
+    ctx.floor("C03.R3", "statement-compiler call sites", len(sites), 11, inventory=True)
     n_true = 0
     for f, c in sites:
         t = top_fn(F, f)
